@@ -131,3 +131,83 @@ def ob_eq_poly(inp, label, got, exp, key=None):
         return Ob.eq(label, got, exp, key=key)
     nterms, nbad = _diff_terms(norm_diff(g, e), np.vectorize(lambda x: S(0), otypes=[object])(g))
     return PolyOb(label, got, exp, nterms, nbad, None, key=key)
+
+
+class EitherOb(Ob):
+    """got equals ONE of several alternatives.  Violation formula: for every alternative some entry differs.
+    Same instance search as PolyOb: a point (exact evaluation) at which got differs from every alternative."""
+
+    def __init__(self, label, got, alts, term_lists, point, key=None):
+        Ob.__init__(self, label, "holds", cond=None, key=key)
+        self.got, self.alts, self.term_lists, self.point = got, alts, term_lists, point
+
+    def violation_formula(self):
+        parts = []
+        for terms, bad in self.term_lists:
+            if bad:
+                continue                       # concretely different from this alternative
+            if not terms:
+                return z3.BoolVal(False)       # literally equal to this alternative
+            parts.append(z3.Or(*[t != 0 for t in terms]))
+        full = z3.And(*parts) if parts else z3.BoolVal(True)
+        if self.point is not None:
+            return z3.And(full, *[v == val for v, val in self.point])
+        return full
+
+    def violated_concrete(self, tol):
+        return Ob.violated_concrete(self, tol)
+
+
+def either_of_poly(inp, label, got, alts, key=None):
+    """Ob: got == one of alts (arrays of polynomials)"""
+    if inp.mode != "sym":
+        from .core import _as_complex
+        g = _as_complex(got)
+        ok = any(g.shape == _as_complex(a).shape and
+                 float(np.max(np.abs(g - _as_complex(a)))) <= 1e-7 * (1 + float(np.max(np.abs(_as_complex(a))))) for a in alts)
+        return Ob.holds(label, ok, key=key)
+    from . import sym as _sym
+    from .sym import free_vars
+    g = np.asarray(got, dtype=object)
+    term_lists = []
+    for a in alts:
+        e = np.asarray(a, dtype=object)
+        if g.shape != e.shape:
+            term_lists.append(([], True))
+            continue
+        raw = z3.simplify(_sym.neq_any(g, e))
+        if z3.is_false(raw):
+            return Ob.holds(label, True, key=key)
+        terms, bad = _diff_terms(norm_diff(g, e), np.vectorize(lambda x: S(0), otypes=[object])(g))
+        if not terms and not bad:
+            return Ob.holds(label, True, key=key)
+        term_lists.append((terms, bad))
+    # instance: a point where, for every alternative, some term is non-zero
+    side = list(_sym.CTX.pc) if _sym.CTX is not None else []
+    side += list(inp.assumptions)
+    allterms = [t for terms, bad in term_lists for t in terms]
+    point = None
+    vs = free_vars(*allterms) if allterms else []
+    side_names = {str(v) for v in free_vars(*side)} if side else set()
+    if allterms and not any(str(v) in side_names or str(v).startswith(("sqrt_", "div!")) or v.sort().kind() != z3.Z3_REAL_SORT for v in vs):
+        import random
+        rnd = random.Random(0)
+        for _ in range(6):
+            sub = [(v, z3.RealVal(rnd.choice([-3, -2, -1, 1, 2, 3]))) for v in vs]
+            ok = True
+            for terms, bad in term_lists:
+                if bad:
+                    continue
+                vals = [z3.simplify(z3.substitute(t, *sub)) for t in terms]
+                if not all(z3.is_rational_value(v) for v in vals):
+                    ok = None
+                    break
+                if all(v.numerator_as_long() == 0 for v in vals):
+                    ok = False
+                    break
+            if ok is None:
+                break
+            if ok:
+                point = sub
+                break
+    return EitherOb(label, got, alts, term_lists, point, key=key)
